@@ -69,7 +69,7 @@ func StartDeadlockWatch(prop, engine string, quiet time.Duration, exit func()) {
 				if !onMutex {
 					continue
 				}
-				if strings.Contains(g, "github.com/hslam/rpc.") {
+				if strings.Contains(g, "github.com/hslam/") {
 					culprits = append(culprits, g)
 				}
 			}
@@ -77,9 +77,39 @@ func StartDeadlockWatch(prop, engine string, quiet time.Duration, exit func()) {
 				idleSince = time.Now() // idle for another reason (e.g. waiting for a real timer)
 				continue
 			}
+			// Not every frozen bubble is a deadlock. If the library (or a
+			// dependency) holds a mutex across a timed wait - say around a
+			// handler that sleeps - the goroutines waiting for that mutex are
+			// not durably blocked, virtual time cannot advance, and the timed
+			// wait never ends: an artefact of the substrate, not a fault of the
+			// code (in real time the sleeper wakes up and unlocks). A goroutine
+			// in a timed sleep below library frames may be such a holder, so in
+			// its presence the verdict is "cannot tell".
+			var sleepers []string
+			for _, g := range strings.Split(string(buf), "\n\n") {
+				m := gHdr.FindStringSubmatch(g)
+				if m == nil || !strings.HasPrefix(m[2], "sleep") {
+					continue
+				}
+				if strings.Contains(g, "github.com/hslam/") {
+					sleepers = append(sleepers, g)
+				}
+			}
+			if len(sleepers) > 0 {
+				w := culprits[0] + "\n\n" + sleepers[0]
+				if len(w) > 8000 {
+					w = w[:8000]
+				}
+				Emit(Result{T: "case", Engine: engine, Case: "freeze-watch", Verdict: Inconclusive, Prop: prop,
+					What:    fmt.Sprintf("the process has made no progress for %v: %d goroutines wait for a mutex while %d goroutines below library frames are in a timed sleep that virtual time cannot end (a mutex held across a timed wait cannot run on this substrate); the rest of this child's cases were not run", quiet, len(culprits), len(sleepers)),
+					Witness: map[string]string{"stacks": w}})
+				Close()
+				exit()
+				return
+			}
 			fr := "?"
 			for _, l := range strings.Split(culprits[0], "\n") {
-				if strings.HasPrefix(l, "github.com/hslam/rpc.") {
+				if strings.HasPrefix(l, "github.com/hslam/") {
 					if i := strings.LastIndex(l, "("); i > 0 {
 						fr = l[:i]
 					}
